@@ -622,7 +622,8 @@ class SimulationAlgorithm(BaseSimulationAlgorithm):
         for i, feat in enumerate(self.features):
             if model.parameters["noise_std"].numel() == 1:
                 mu = df_long[feat + "_no_noise"]
-                var = model.parameters["noise_std"].numpy() ** 2
+                # (0-dimensional right after a fit, shape (1,) once loaded from a file)
+                var = model.parameters["noise_std"].numpy().reshape(()) ** 2
             else:
                 mu = df_long[feat + "_no_noise"]
                 var = model.parameters["noise_std"][i].numpy() ** 2
